@@ -317,7 +317,7 @@ func tryGetRedumpKey(fsys afero.Fs, requestedPath string) ([]byte, error) {
 	}
 
 	// try .dkey file first
-	keyFile, err := fsys.Open(strings.TrimSuffix(requestedPath, ext) + dkeyExt)
+	keyFile, err := openKeyFile(fsys, strings.TrimSuffix(requestedPath, ext)+dkeyExt)
 	if err == nil {
 		defer keyFile.Close()
 		return ReadKeyFile(keyFile)
@@ -331,13 +331,34 @@ func tryGetRedumpKey(fsys afero.Fs, requestedPath string) ([]byte, error) {
 	// try .dkey in REDKEY directory (instead of PS3ISO)
 	pathElems[ps3IsoIdx] = redkeyDir
 	pathElems[len(pathElems)-1] = strings.TrimSuffix(pathElems[len(pathElems)-1], ext) + dkeyExt
-	keyFile, err = fsys.Open(filepath.Join(pathElems...))
+	keyFile, err = openKeyFile(fsys, filepath.Join(pathElems...))
 	if err == nil {
 		defer keyFile.Close()
 		return ReadKeyFile(keyFile)
 	}
 
 	return nil, err
+}
+
+// openKeyFile opens key file, every way of "there is no such file" (including a name which can't exist:
+// too long or below something that is not a directory, and a directory with key file name)
+// is reported as afero.ErrFileNotFound.
+func openKeyFile(fsys afero.Fs, path string) (afero.File, error) {
+	f, err := fsys.Open(path)
+	if err != nil {
+		if errors.Is(err, syscall.ENOTDIR) || errors.Is(err, syscall.ENAMETOOLONG) {
+			return nil, afero.ErrFileNotFound
+		}
+
+		return nil, err
+	}
+
+	if info, err := f.Stat(); err == nil && info.IsDir() {
+		_ = f.Close()
+		return nil, afero.ErrFileNotFound
+	}
+
+	return f, nil
 }
 
 func deriveISOKey(targetKey, data1Key []byte) error {
